@@ -137,3 +137,118 @@ func families(run func(sp *ebnfref.Spec, family string)) {
 		}
 	}
 }
+
+// scaling: constructs that are long, wide, deep or numerous - beyond the node bound of the complete enumeration, in
+// shapes whose languages stay small: concatenations of m symbols (bare and inside every bracket), alternations of m
+// distinct alternatives (bare and inside every bracket), m levels of nested brackets (one kind, and the four kinds in
+// rotation, with and without a sibling at every level), m different bracket groups in one rule and over m rules, and
+// one group written m times. Sentences are compared up to the length each shape needs.
+func scaling(runN func(sp *ebnfref.Spec, family string, n int), quick bool) {
+	mk := func(family, text string, n int) {
+		sp, err := ebnfref.ParseSpec(text)
+		if err != nil {
+			ev.Fatal("family %s: reference cannot read %q: %v", family, text, err)
+		}
+		runN(sp, family, n)
+	}
+	const head = "grammar g\nTK = \"t\"\n"
+	var sizes []int
+	if quick {
+		for m := 1; m <= 12; m++ {
+			sizes = append(sizes, m)
+		}
+		sizes = append(sizes, 15, 16, 17, 31, 32, 33)
+	} else {
+		for m := 1; m <= 70; m++ {
+			sizes = append(sizes, m)
+		}
+		sizes = append(sizes, 127, 128, 129)
+	}
+	cyc := []string{`"a"`, `"b"`, `TK`}
+	// code(i): a sentence that is different for every i (binary digits of i, lowest first, as "a" / "b")
+	code := func(i int) (string, int) {
+		var parts []string
+		for v := i; v > 0; v >>= 1 {
+			parts = append(parts, cyc[v&1])
+		}
+		return strings.Join(parts, " "), len(parts)
+	}
+	for _, m := range sizes {
+		var syms []string
+		for i := 0; i < m; i++ {
+			syms = append(syms, cyc[i%3])
+		}
+		long := strings.Join(syms, " ")
+		mk("scaling_long_concatenation", fmt.Sprintf("%sstart = %s ;\n", head, long), m)
+		var alts []string
+		width := 0
+		for i := 1; i <= m; i++ {
+			c, l := code(i)
+			alts = append(alts, c)
+			width = l
+		}
+		wide := strings.Join(alts, " | ")
+		mk("scaling_wide_alternation", fmt.Sprintf("%sstart = %s ;\n", head, wide), width)
+		mk("scaling_wide_alternation", fmt.Sprintf("%sstart = %s | ;\n", head, wide), width)
+		for b := 0; b < 4; b++ {
+			rep := 1
+			if b >= 2 {
+				rep = 2
+			}
+			if m <= 40 {
+				mk("scaling_long_concatenation", fmt.Sprintf("%sstart = %s ;\n", head, wrap(b, long)), rep*m)
+				mk("scaling_long_concatenation", fmt.Sprintf("%sstart = \"b\" %s \"a\" ;\n", head, wrap(b, long)), rep*m+2)
+			}
+			wn := width
+			if b >= 2 && wn < 4 {
+				wn = 4
+			}
+			if b >= 2 && wn > 5 {
+				wn = 5
+			}
+			mk("scaling_wide_alternation", fmt.Sprintf("%sstart = %s ;\n", head, wrap(b, wide)), wn)
+			mk("scaling_wide_alternation", fmt.Sprintf("%sstart = \"b\" %s | \"a\" ;\n", head, wrap(b, wide+" |")), wn+1)
+			// m levels of one kind of bracket
+			if m <= 40 {
+				inner, sib := `"a"`, `"b" "a"`
+				for l := 0; l < m; l++ {
+					inner = wrap(b, inner)
+					if l > 0 {
+						sib = `"b" ` + wrap(b, sib)
+					}
+				}
+				mk("scaling_deep_nesting", fmt.Sprintf("%sstart = %s ;\n", head, inner), 4)
+				if b < 2 {
+					mk("scaling_deep_nesting", fmt.Sprintf("%sstart = %s ;\n", head, sib), m+1)
+				} else if m <= 4 {
+					mk("scaling_deep_nesting", fmt.Sprintf("%sstart = %s ;\n", head, sib), 6)
+				}
+				// the four kinds in rotation, starting with kind b
+				rot := `"a" TK`
+				for l := 0; l < m; l++ {
+					rot = wrap((b+l)%4, rot)
+				}
+				mk("scaling_deep_nesting", fmt.Sprintf("%sstart = %s \"b\" ;\n", head, rot), 5)
+			}
+			// m different groups of one kind in one rule, and one per rule over m rules; one group written m times
+			var many, rules, names, same []string
+			for i := 1; i <= m; i++ {
+				c, _ := code(i)
+				many = append(many, fmt.Sprintf("%s %s", wrap(b, `"b" `+c), c))
+				rules = append(rules, fmt.Sprintf("r%d = %s %s ;\n", i, wrap(b, `"b" `+c), c))
+				names = append(names, fmt.Sprintf("r%d", i))
+				same = append(same, fmt.Sprintf("%s %s", wrap(b, `"b" TK`), c))
+			}
+			gn := width + 3
+			if b >= 2 {
+				gn = width + 1 + 2*(width+1)
+				if gn > 9 {
+					gn = 9
+				}
+			}
+			mk("scaling_many_groups", fmt.Sprintf("%sstart = %s ;\n", head, strings.Join(many, " | ")), gn)
+			mk("scaling_many_groups", fmt.Sprintf("%sstart = %s ;\n%s", head, strings.Join(names, " | "), strings.Join(rules, "")), gn)
+			mk("scaling_one_group_many_times", fmt.Sprintf("%sstart = %s ;\n", head, strings.Join(same, " | ")), width+4)
+		}
+	}
+}
